@@ -590,6 +590,17 @@ func (g *gen) genBlock(bi int) {
 	}
 	n := r.Range(0, g.cfg.maxTxs)
 	if wantUnjail >= 0 {
+		if v, ok := g.m.Vals[wantUnjail]; ok && v.Stake.IsInt64() && r.Chance(0.25) {
+			// the minimum stake is moved right next to the jailed validator's remaining stake before it asks to be unjailed
+			if o, ok := g.m.P.ACL["pos/StakeMinimum"]; ok && o >= 0 {
+				st := v.Stake.Int64()
+				rem := 1000000 - st%1000000
+				val := []int64{st + 1, st, st + rem - 1, st + rem/2, st + rem, st - 1}[r.Intn(6)]
+				if val >= 1000000 {
+					g.addTx(bi, g.honest(TxSpec{Kind: "change_param", Acct: o, ParamKey: "pos/StakeMinimum", ParamVal: ParamJSON(val)}))
+				}
+			}
+		}
 		g.addTx(bi, g.honest(TxSpec{Kind: "unjail", Acct: wantUnjail}))
 	}
 	for i := 0; i < n; i++ {
@@ -1087,7 +1098,7 @@ func (g *gen) paramValue(k string) string {
 	case "auth/TxSigLimit":
 		return ParamJSON(uint64(r.Range(2, 8)))
 	case "pos/StakeMinimum":
-		return ParamJSON(int64([]int{1000000, 2000000, 1000001}[r.Intn(3)]))
+		return ParamJSON(int64([]int{1000000, 2000000, 1000001, 1999999, 1500000, 4990000, 9999999, 1985000}[r.Intn(8)]))
 	case "pos/SignedBlocksWindow":
 		return ParamJSON(int64(r.Range(10, 40)))
 	case "pos/ProposerRewardPercentage":
